@@ -13,6 +13,14 @@ fn tlv(tag: u8, body: &[u8]) -> Vec<u8> {
 fn spki(params: &[u8], key: &[u8]) -> Vec<u8> { let mut bs = vec![0u8]; bs.extend_from_slice(key); let mut inner = tlv(0x30, params); inner.extend(tlv(0x03, &bs)); tlv(0x30, &inner) }
 
 pub fn run_keyid(sc: &Value) -> Value {
+    // history: the same key material constructed first in another way (same process, same thread)
+    if let Some(h) = sc.get("history").and_then(|h| h.as_object()) {
+        let mut first = sc.clone();
+        first.as_object_mut().unwrap().remove("history");
+        if let Some(a) = h.get("same key first constructed with hash algorithms") { first["algs"] = a.clone(); }
+        if let Some(s) = h.get("same key first constructed with scheme") { first["key"] = json!(if s == "RsaSsaPssSha512" { "rsa512" } else { "rsa" }); }
+        let _ = run_keyid(&first);
+    }
     let value = bytes(&sc["value"]);
     let algs: Option<Vec<String>> = if sc["algs"].is_null() { None } else { Some(sc["algs"].as_array().unwrap().iter().map(|x| x.as_str().unwrap().to_string()).collect()) };
     let default = algs.as_ref().map(|a| a == &vec!["sha256".to_string(), "sha512".to_string()]).unwrap_or(false);
